@@ -208,7 +208,11 @@ class WakeWorld(World):
 
             def send_continue(self, *a, **kw):
                 world.sched.note("send_continue", None)
-                return base.send_continue(self, *a, **kw)
+                try:
+                    return base.send_continue(self, *a, **kw)
+                except ValueError:     # append to a buffer that handle_close has closed
+                    world.sched.note("sc_append_raised", None)
+                    raise
 
             def handle_close(self):
                 try:
@@ -469,6 +473,14 @@ def model_tokens(world, sc):
                 lab, arg = "Done", str(det)
         elif kind == "hc_keep":
             lab, arg = "Keep", str(det)
+        elif kind == "send_continue" and th != "io":
+            lab, arg = "ScAppend", "0"
+            for j in range(i + 1, len(ev)):
+                if ev[j][0] == th and ev[j][1] == "service_end":
+                    break
+                if ev[j][0] == th and ev[j][1] == "sc_append_raised":
+                    arg = "1"
+                    break
         elif kind == "client:send":
             lab, arg = "Client", segs[nseg][0]
             nseg += 1
